@@ -6,10 +6,41 @@ from .common import decided_split, pre, S_RULES
 from ..poly import Poly, same
 from ..values import ARR, INT, FLOAT
 
-ACCEPTED_DEN = {
-    ('maxvol.maxvol_rect', '/ 1 + v[i]'):
-        'v[i] = B[i] . B[i] is a squared Euclidean norm, so 1 + v[i] >= 1',
-}
+def _accepted_den(prog, fn, node):
+    """Denominator  1 + v[i]  with  v = B.dot(B[i])  (same i): v[i] is the
+    squared Euclidean norm of row i, so the denominator is >= 1.  Recognised
+    by shape and dataflow, not by variable names."""
+    den = node.right if isinstance(node, ast.BinOp) else \
+        getattr(node, 'value', None)
+    if not (isinstance(den, ast.BinOp) and isinstance(den.op, ast.Add)):
+        return None
+    one, sq = den.left, den.right
+    if not (isinstance(one, ast.Constant) and one.value == 1):
+        one, sq = sq, one
+    if not (isinstance(one, ast.Constant) and one.value == 1 and
+            isinstance(sq, ast.Subscript) and
+            isinstance(sq.value, ast.Name) and
+            isinstance(sq.slice, ast.Name)):
+        return None
+    vname, iname = sq.value.id, sq.slice.id
+    for n2 in ast.walk(fn.node):
+        if isinstance(n2, ast.Assign) and \
+                isinstance(n2.targets[0], ast.Name) and \
+                n2.targets[0].id == vname and \
+                isinstance(n2.value, ast.Call) and \
+                isinstance(n2.value.func, ast.Attribute) and \
+                n2.value.func.attr == 'dot' and \
+                isinstance(n2.value.func.value, ast.Name) and \
+                len(n2.value.args) == 1:
+            a0 = n2.value.args[0]
+            if isinstance(a0, ast.Subscript) and \
+                    isinstance(a0.value, ast.Name) and \
+                    a0.value.id == n2.value.func.value.id and \
+                    isinstance(a0.slice, ast.Name) and a0.slice.id == iname:
+                return ('the subscripted vector is M.dot(M[i]) and is read at '
+                        'the same i: a squared Euclidean norm, so the '
+                        'denominator is >= 1')
+    return None
 
 
 def _pair(prog, rep, name, shape_ok_args, **kw):
@@ -57,9 +88,11 @@ def check(an, rep, tier):
                 st = s.status
                 det = s.detail
                 if s.rule == 'G-div' and st == 'unknown':
-                    key = (s.where, s.construct)
-                    if key in ACCEPTED_DEN:
-                        st, det = 'ok', 'accepted: ' + ACCEPTED_DEN[key]
+                    fn_s = prog.func(s.where) if s.where in (
+                        'maxvol.maxvol', 'maxvol.maxvol_rect') else None
+                    acc = _accepted_den(prog, fn_s, s.node) if fn_s else None
+                    if acc:
+                        st, det = 'ok', 'accepted: ' + acc
                     else:
                         st, det = 'violation', 'division by a data-derived ' \
                             'value that is not guarded: ' + s.construct
@@ -138,7 +171,7 @@ def check(an, rep, tier):
     # --- _maxvol: clamps precede the dispatch, dispatch exhaustive
     fn = prog.func('utils._maxvol')
     mod = fn.module
-    body = fn.node.body
+    body = paths.linear(fn.node.body)
     ifs = [s for s in body if isinstance(s, ast.If)]
     clamps = [s for s in body if isinstance(s, ast.Assign) and
               isinstance(s.value, ast.Call) and
@@ -165,47 +198,71 @@ def check(an, rep, tier):
     loops = [n for n in ast.walk(fn.node) if isinstance(n, ast.For)]
     okp = False
     why = 'loop not found'
+    fname = sname = None
     for lp in loops:
+        # roles from the dataflow of the loop body:
+        #   i = argmax(F)        -> selected row i, residual vector F
+        #   F = S * (...)        -> mask S
+        #   X[..] = i            -> selection store
+        #   S[i] = 0             -> masking store
+        iname = None
+        lbody = paths.linear(lp.body)
+        for st in lbody:
+            if isinstance(st, ast.Assign) and \
+                    isinstance(st.targets[0], ast.Name) and \
+                    isinstance(st.value, ast.Call) and \
+                    (prog.dotted(st.value.func) or '').endswith('argmax') and \
+                    st.value.args and isinstance(st.value.args[0], ast.Name):
+                iname, fname = st.targets[0].id, st.value.args[0].id
+        if iname is None:
+            continue
         sel = mask = remask = None
-        for i, st in enumerate(lp.body):
+        for i, st in enumerate(lbody):
+            if isinstance(st, ast.Assign) and \
+                    isinstance(st.targets[0], ast.Name) and \
+                    st.targets[0].id == fname and \
+                    isinstance(st.value, ast.BinOp) and \
+                    isinstance(st.value.op, ast.Mult):
+                for opnd in (st.value.left, st.value.right):
+                    if isinstance(opnd, ast.Name) and opnd.id != fname:
+                        sname, remask = opnd.id, i
+        for i, st in enumerate(lbody):
             if isinstance(st, ast.Assign) and \
                     isinstance(st.targets[0], ast.Subscript) and \
                     isinstance(st.targets[0].value, ast.Name):
                 nm = st.targets[0].value.id
-                if nm == 'I' and isinstance(st.value, ast.Name):
-                    sel = (i, st.value.id)
-                if nm == 'S' and isinstance(st.value, ast.Constant) and \
+                if isinstance(st.value, ast.Name) and st.value.id == iname \
+                        and nm != sname:
+                    sel = i
+                if nm == sname and isinstance(st.value, ast.Constant) and \
                         st.value.value == 0 and \
-                        isinstance(st.targets[0].slice, ast.Name):
-                    mask = (i, st.targets[0].slice.id)
-            if isinstance(st, ast.Assign) and \
-                    isinstance(st.targets[0], ast.Name) and \
-                    st.targets[0].id == 'F' and \
-                    isinstance(st.value, ast.BinOp) and \
-                    isinstance(st.value.op, ast.Mult) and \
-                    isinstance(st.value.left, ast.Name) and \
-                    st.value.left.id == 'S':
-                remask = i
-        if sel and mask and remask is not None:
-            okp = sel[1] == mask[1] and mask[0] < remask and sel[0] < remask
-            why = 'select at stmt %d, mask at %d, re-mask of F at %d' % (
-                sel[0], mask[0], remask)
-    rep.add('P-pair', 'maxvol.maxvol_rect', 'I[k] = i ; S[i] = 0 ; ... ; '
-            'F = S * (...)', 'ok' if okp else 'violation',
-            '' if okp else 'a selected row must be masked in S before F is '
-            're-masked in the same iteration (otherwise the row can be '
-            'selected twice): %s' % why, line=fn.node.lineno, file=mod.path)
+                        isinstance(st.targets[0].slice, ast.Name) and \
+                        st.targets[0].slice.id == iname:
+                    mask = i
+        if remask is None:
+            continue
+        okp = sel is not None and mask is not None and mask < remask and \
+            sel < remask
+        why = 'select at stmt %s, mask at %s, re-mask of the residuals at ' \
+            '%s' % (sel, mask, remask)
+    rep.add('P-pair', 'maxvol.maxvol_rect', 'index[k] = i ; mask[i] = 0 ; '
+            '... ; residual = mask * (...)', 'ok' if okp else 'violation',
+            '' if okp else 'a selected row must be masked before the residual '
+            'vector is re-masked in the same iteration (otherwise the row can '
+            'be selected twice): %s' % why, line=fn.node.lineno, file=mod.path)
     # row-norm stop criterion uses the accuracy parameter of maxvol_rect
     okt = False
     for lp in loops:
-        for st in lp.body:
+        for st in paths.linear(lp.body):
             if isinstance(st, ast.If) and any(isinstance(b, ast.Break)
                                               for b in st.body):
                 names = [x.id for x in ast.walk(st.test)
                          if isinstance(x, ast.Name)]
                 e_par = fn.params[1] if len(fn.params) > 1 else 'e'
-                okt = names.count(e_par) >= 1 and 'F' in names and \
-                    not any(n_ in ('e0', 'k0') for n_ in names)
+                other_par = [p_ for p_ in fn.params[2:] if p_ in names and
+                             p_ not in ('dr_min', 'dr_max')]
+                okt = names.count(e_par) >= 1 and fname in names and \
+                    not other_par
     rep.add('P-threshold', 'maxvol.maxvol_rect', 'greedy loop stops on '
             'F[i] <= e*e', 'ok' if okt else 'violation',
             '' if okt else 'the early-stop test of the greedy additions must '
@@ -213,16 +270,17 @@ def check(an, rep, tier):
             'parameter e of maxvol_rect (not with the tolerance of the inner '
             'maxvol)', line=fn.node.lineno, file=mod.path)
     init = False
-    for i, st in enumerate(fn.node.body):
+    lin_ = paths.linear(fn.node.body)
+    for i, st in enumerate(lin_):
         if isinstance(st, ast.Assign) and \
                 isinstance(st.targets[0], ast.Subscript) and \
                 isinstance(st.targets[0].value, ast.Name) and \
-                st.targets[0].value.id == 'S' and \
+                st.targets[0].value.id == sname and \
                 isinstance(st.value, ast.Constant) and st.value.value == 0:
-            nxt = fn.node.body[i + 1] if i + 1 < len(fn.node.body) else None
+            nxt = lin_[i + 1] if i + 1 < len(lin_) else None
             init = isinstance(nxt, ast.Assign) and \
                 isinstance(nxt.targets[0], ast.Name) and \
-                nxt.targets[0].id == 'F' and 'S' in {
+                nxt.targets[0].id == fname and sname in {
                     x.id for x in ast.walk(nxt.value)
                     if isinstance(x, ast.Name)}
     rep.add('P-pair', 'maxvol.maxvol_rect', 'S[I0] = 0 before the first '
